@@ -304,7 +304,7 @@ def c05_2b(ctx: Ctx):
 # ----------------------------------------------------------------------------
 
 
-@rule("C05.3", ["C05", "C20", "C09"], "caches restore the caller's state on all exits", 6)
+@rule("C05.3", ["C05", "C20", "C09", "C03", "C18", "C02"], "caches restore the caller's state on all exits", 6)
 def c05_3(ctx: Ctx):
     repo = ctx.repo
     fi = repo.func("_modify.cache.make_return_cache")
